@@ -32,37 +32,68 @@ def r1(ctx, tables):
         rule.analysed(b)
         p = Prov(b, facts)
         e = p.local(0)
-        take = [x for x in walk(e) if x[0] == "call" and short(x[1]).endswith("Iterator::take")]
-        ok = bool(take) and fmt_short(take[0][2][1]) == "self.config.num_results" and \
-            any(x[0] == "call" and short(x[1]).endswith("BTreeMap::into_values") and fmt_short(x[2][0]) == "self.closest_peers" for x in walk(e))
-        fm = [x for x in walk(e) if x[0] == "call" and short(x[1]).endswith("Iterator::filter_map")]
-        ok = ok and bool(fm) and any(y is fm[0] or y == fm[0] for y in walk(take[0][2][0])) if take else False
-        rule.check(ok, "[%s] into_result = closest_peers.into_values().filter_map(..).take(config.num_results)" % which, "%s|into_result|shape" % which,
-                   "[%s] into_result is %s" % (which, fmt_short(e)), loc=b.loc(b.line))
-        cb = facts.one(re.escape(pre + "into_result") + r"::\{closure#0\}")
-        rule.analysed(cb)
-        cp = Prov(cb, facts)
-        cg = Guards(cb, cp, facts)
-        somes = [blk for lhs, kind, payload, blk, _l in cp.defs.get(0, ()) if kind == "rv" and payload.k == "agg" and payload.j.get("variant") == "Some"]
-        succ = []
-        pm = []
-        for bi, t, se in cg.switches():
-            if se[0] == "discr" and fmt_short(se[1]) == "peer.state":
-                names, _ = cg.variant_names(bi)
-                succ += [(bi, tb) for v, tb in t.vals if names.get(v) == "Succeeded"]
-            if fmt_short(se) == "peer.predicate_match":
-                pm.append((bi, cg.bool_edges(bi)[1]))
-        r = cb.reachable(0, removed_edges=succ)
-        rule.check(bool(succ) and somes and not any(s in r for s in somes), "[%s] a peer is yielded only if its state is Succeeded" % which, "%s|into_result|succeeded" % which,
-                   "[%s] into_result can return a peer that never answered" % which, loc=cb.loc(cb.line))
+        # the pipeline, from the source outwards: into_values(closest_peers) . (filter | filter_map | map)* . take(num_results) . collect
+        stages = []
+        cur = e
+        for _ in range(12):
+            if cur[0] != "call" or not cur[2]:
+                break
+            nm = short(cur[1]).split("::")[-1]
+            stages.append((nm, cur))
+            cur = cur[2][0]
+        stages.reverse()
+        names = [n_ for n_, _ in stages]
+        src_ok = bool(stages) and names[0] in ("into_values", "values", "into_iter", "iter") and "self.closest_peers" in fmt_short(stages[0][1])
+        takes = [i for i, (n_, c_) in enumerate(stages) if n_ == "take"]
+        filt = [i for i, (n_, c_) in enumerate(stages) if n_ in ("filter", "filter_map")]
+        take_ok = len(takes) == 1 and fmt_short(stages[takes[0]][1][2][1]) == "self.config.num_results" and bool(filt) and max(filt) < takes[0]
+        known = all(n_ in ("into_values", "values", "into_iter", "iter", "filter", "filter_map", "map", "take", "collect", "cloned", "copied") for n_ in names)
+        rule.check(src_ok and take_ok and known, "[%s] into_result = closest_peers values, filtered, then .take(config.num_results): %s" % (which, " . ".join(names)),
+                   "%s|into_result|shape" % which, "[%s] into_result is %s: the result is not cut to num_results after filtering (or the pipeline is not understood)" % (
+                       which, " . ".join(names) or fmt_short(e)), loc=b.loc(b.line))
+        # closures of the filtering / mapping stages
+        succ_ok, pm_ok, id_vals = False, False, []
+        for i, (n_, c_) in enumerate(stages):
+            if n_ not in ("filter", "filter_map", "map") or len(c_[2]) < 2 or c_[2][1][0] != "agg":
+                continue
+            cpath = c_[2][1][1].split(":", 1)[1] if ":" in c_[2][1][1] else None
+            cb = facts.bodies.get(cpath)
+            if cb is None:
+                continue
+            rule.analysed(cb)
+            cp = Prov(cb, facts)
+            cg = Guards(cb, cp, facts)
+            succ, pm = [], []
+            for bi, t, se in cg.switches():
+                if se[0] == "discr" and fmt_short(se[1]).endswith(".state"):
+                    vn, _ = cg.variant_names(bi)
+                    succ += [(bi, tb) for v, tb in t.vals if vn.get(v) == "Succeeded"]
+                if fmt_short(se).endswith(".predicate_match"):
+                    pm.append((bi, cg.bool_edges(bi)[1]))
+            if n_ == "filter_map":
+                yes = [(blk, payload) for lhs, kind, payload, blk, _l in cp.defs.get(0, ()) if kind == "rv" and payload.k == "agg" and payload.j.get("variant") == "Some"]
+                id_vals += [fmt_short(cp.operand(pl.ops[0])) for _, pl in yes]
+            elif n_ == "filter":
+                yes = [(blk, payload) for lhs, kind, payload, blk, _l in cp.defs.get(0, ()) if kind == "rv" and not (payload.k == "use" and payload.ops[0].const_int() == 0)]
+            else:
+                id_vals.append(fmt_short(cp.local(0)))
+                continue
+            if not yes:
+                continue
+            r_s = cb.reachable(0, removed_edges=succ)
+            if succ and not any(blk in r_s for blk, _ in yes):
+                succ_ok = True
+            r_p = cb.reachable(0, removed_edges=pm)
+            if all((blk not in r_p and pm) or (pl.k == "use" and fmt_short(cp.operand(pl.ops[0])).endswith(".predicate_match")) for blk, pl in yes):
+                pm_ok = True
+        rule.check(succ_ok, "[%s] a peer is yielded only if its state is Succeeded" % which, "%s|into_result|succeeded" % which,
+                   "[%s] into_result can return a peer that never answered" % which, loc=b.loc(b.line))
         if which == "predicate":
-            r = cb.reachable(0, removed_edges=pm)
-            rule.check(bool(pm) and not any(s in r for s in somes), "[predicate] a peer is yielded only if predicate_match", "predicate|into_result|match",
-                       "[predicate] into_result can return a peer whose record did not satisfy the predicate", loc=cb.loc(cb.line))
+            rule.check(pm_ok, "[predicate] a peer is yielded only if predicate_match", "predicate|into_result|match",
+                       "[predicate] into_result can return a peer whose record did not satisfy the predicate", loc=b.loc(b.line))
         # the yielded id is the peer's own key
-        vals = [fmt_short(cp.operand(payload.ops[0])) for lhs, kind, payload, blk, _l in cp.defs.get(0, ()) if kind == "rv" and payload.k == "agg" and payload.j.get("variant") == "Some"]
-        rule.check(vals and all(v == "Key::into_preimage(peer.key)" for v in vals), "[%s] the id returned is the peer's own key preimage" % which, "%s|into_result|id" % which,
-                   "[%s] into_result yields %s" % (which, vals), loc=cb.loc(cb.line))
+        rule.check(bool(id_vals) and all(re.fullmatch(r"Key::into_preimage\((\w+)\.key\)", v) for v in id_vals), "[%s] the id returned is the peer's own key preimage" % which,
+                   "%s|into_result|id" % which, "[%s] into_result yields %s" % (which, id_vals), loc=b.loc(b.line))
         # who assigns Succeeded
         table, meta = tables[which]
         where = sorted(set(k for k, v in table.items() for s in v if "Succeeded" in s[0]))
